@@ -2,7 +2,7 @@
     tools/checks/c06.py and c07.py parse this output to name what broke. *)
 
 From Coq Require Import String List NArith Bool.
-From Nexus Require Import Conc.SkelTypes Conc.Skeleton Conc.Stall gen.GenSkeleton.
+From Nexus Require Import Conc.SkelTypes Conc.Skeleton Conc.Stall Conc.YieldRetry gen.GenSkeleton.
 Import ListNotations.
 Open Scope string_scope.
 
@@ -17,7 +17,8 @@ Definition report : list (string * bool) :=
     ("wait_graph_ranked", wait_graph_ranked gen_funcs gen_entries gen_meta_inbound);
     ("no_peer_close_in_shared_server", no_peer_close_in_shared_server gen_funcs);
     ("skeleton_conforms", skeleton_conforms gen_funcs gen_submitters);
-    ("closable_senders_covered", closable_senders_covered gen_funcs) ].
+    ("closable_senders_covered", closable_senders_covered gen_funcs);
+    ("yield_retry_keeps_invocation", yield_retry_keeps_invocation gen_yield_retry_keeps_invocation) ].
 
 Definition REPORT := report.
 Eval vm_compute in REPORT.
@@ -47,3 +48,6 @@ Eval vm_compute in INVENTORY_SIZE.
 
 Definition RETRY_TOTAL_MS := retry_total gen_yield_retry_delay_ms gen_send_result_deadline_ms.
 Eval vm_compute in RETRY_TOTAL_MS.
+
+Definition YIELD_RESUME_TABLE := yield_resume_table gen_yield_retry_delay_ms gen_send_result_deadline_ms.
+Eval vm_compute in YIELD_RESUME_TABLE.
